@@ -1,12 +1,17 @@
 """X01 (extended coverage) -- life cycle of dispatch hooks (_DispatchHook / _CompositeDispatchHook, the otel / sentry
 extension point).  spec/wire/HookLife.tla (state machine with the ghost server trace + monitor), HookLifeTrace.tla."""
 import json
+import multiprocessing as mp
+import os
+import shutil
+import threading
 import time
+import zlib
 
 from drivers import _extra1_world as W
 from vf import tracecheck
 from vf.core import Ctx
-from vf.tlc import render_cfg, require_ok, run_tlc, sany, wrap_module
+from vf.tlc import MachineryError, render_cfg, require_ok, run_tlc, sany, wrap_module
 
 META = {
     "engine": "wire",
@@ -54,21 +59,27 @@ def consts(max_calls, max_ticks, transports=("pipe", "http"), ver=False, full_pa
             "FixHttpTurnError": fix, "FixHttpErrorUnwrapped": fix}
 
 
-def model_check(ctx: Ctx, wd, name: str, cs: dict, pair_hooks: list | None):
+def model_check(ctx: Ctx, wd, name: str, cs: dict, pair_hooks: list | None, emit: bool = True, mod: str = "MC_HookLife",
+                extra_invs=(), record: bool = True):
     ph = "HookCfgs" if pair_hooks is None else "{" + ", ".join(tla_seq(h) for h in pair_hooks) + "}"
-    wrap_module(wd, "HookLife", "MC_HookLife", {
+    wrap_module(wd, "HookLife", mod, {
         "PairHooksDef": ph,
         "EmitMethods": 'PrintT("@@J@@" \\o ToJson([methods |-> Methods]))',
         "Emit": 'Done => PrintT("@@J@@" \\o ToJson([tr |-> tr, hooks |-> hooks, script |-> script, hist |-> hist, '
                 'strace |-> strace]))'}, extends="TLC, Json")
-    src = (wd / "MC_HookLife.tla").read_text().replace("====", "ASSUME EmitMethods\n====")
-    (wd / "MC_HookLife.tla").write_text(src)
-    r = run_tlc(wd, "MC_HookLife", render_cfg(constants=cs, overrides={"PairHooks": "PairHooksDef"},
-                                              invariants=INVS + ["Emit"]),
+    if emit:
+        src = (wd / f"{mod}.tla").read_text().replace("====", "ASSUME EmitMethods\n====")
+        (wd / f"{mod}.tla").write_text(src)
+    r = run_tlc(wd, mod, render_cfg(constants=cs, overrides={"PairHooks": "PairHooksDef"},
+                                    invariants=INVS + list(extra_invs) + (["Emit"] if emit else [])),
                 timeout=1500, cfg_name=f"mc_{abs(hash(name)) % 10**6}.cfg",
                 env={"JAVA_TOOL_OPTIONS": "-XX:TieredStopAtLevel=1"})
+    if not record:
+        return r, name
     ctx.add_tlc(name, r)
     require_ok(r, f"HookLife intended design ({name})")
+    if not emit:
+        return None, []
     methods = next(j["methods"] for j in r.json_lines if "methods" in j)
     return methods, [j for j in r.json_lines if "script" in j]
 
@@ -102,6 +113,7 @@ class Worlds:
 
 def replay(worlds: Worlds, ver: bool, tr: str, hooks: list, script: list, xs: list) -> dict:
     conn = worlds.conn(ver, tr, hooks)
+    conn.counter[0] = 0
     W.take_events()
     res, hung = W.with_watchdog(lambda: W.run_script(conn, script, xs), 8.0)
     closed = True
@@ -121,6 +133,30 @@ def replay(worlds: Worlds, ver: bool, tr: str, hooks: list, script: list, xs: li
             "hung": hung, "died": list(conn.died), "errtexts": [e.get("errtext") for e in evs if e["ev"] == "end"]}
 
 
+def work(args) -> list:
+    """Worker process: replay a shard of jobs (all of one version world).  job = (index, tr, hooks, script, xs)."""
+    methods, ver, shard = args
+    W.install_logging(False)
+    worlds = Worlds(methods)
+    base_cache: dict = {}
+    out = []
+    for ji, tr, hooks, script, xs in shard:
+        bkey = json.dumps([tr, script], sort_keys=True)
+        if bkey not in base_cache:
+            base_cache[bkey] = replay(worlds, ver, tr, [], script, xs)
+        base = base_cache[bkey]
+        real = base if not hooks else replay(worlds, ver, tr, list(hooks), script, xs)
+        out.append((ji, real, base))
+    for c in worlds.http.values():
+        c.close()
+    return out
+
+
+def _warm() -> None:
+    import vgi_rpc.http  # noqa: F401
+    from vgi_rpc.http import _testing  # noqa: F401
+
+
 def run(ctx: Ctx) -> None:
     quick = ctx.quick
     wd = ctx.wd.stage("wire")
@@ -128,55 +164,92 @@ def run(ctx: Ctx) -> None:
     sany(wd, "HookLifeTrace")
     W.install_logging(False)
     t0 = time.time()
-    # the design as found (HTTP producer-turn failures end with error None; /init and exchange failures hand the hook
-    # the transport's wrapper exception) violates the monitor: kept as documentation
-    wrap_module(wd, "HookLife", "MC_AsFound", {"PairHooksDef": "HookCfgs"}, extends="TLC")
-    r0 = run_tlc(wd, "MC_AsFound", render_cfg(constants=consts(1, 1, ("http",), fix=False, max_hooks=1),
-                                              overrides={"PairHooks": "PairHooksDef"}, invariants=["DoneClean"]),
-                 env={"JAVA_TOOL_OPTIONS": "-XX:TieredStopAtLevel=1"}, workers=2)
-    ctx.extra["design_as_found_violates"] = r0.violated
-    ctx.extra["design_as_found_counterexample_last_state"] = (r0.counterexample[-1][1][:1500] if r0.counterexample else None)
+    nproc = int(os.environ.get("VERIF_PROCS", "6" if quick else "10"))
+    pool = mp.get_context("spawn").Pool(nproc, initializer=_warm)      # imports overlap with the model checking
+    try:
+        _run(ctx, wd, quick, t0, pool, nproc)
+    finally:
+        pool.terminate()
 
-    mt = 2
+
+def _run(ctx: Ctx, wd, quick: bool, t0: float, pool, nproc: int) -> None:
+    mt = 2 if quick else 3
     methods, one = model_check(ctx, wd, f"HookLife exhaustive MaxCalls=1 MaxTicks={mt} hooks<=2 pipe+http",
-                               consts(1, mt), None)
-    _, ver1 = model_check(ctx, wd, "HookLife exhaustive version-mismatch world MaxCalls=1 MaxTicks=1",
-                          consts(1, 1, ver=True), None)
+                               consts(1, mt), None, extra_invs=["MonAgrees"])
+    _, ver1 = model_check(ctx, wd, f"HookLife exhaustive version-mismatch world MaxCalls=1 MaxTicks={0 if quick else 1} "
+                                   f"hooks<={1 if quick else 2}",
+                          consts(1, 0 if quick else 1, ver=True, max_hooks=1 if quick else 2), None)
+    three = []
+    if not quick:
+        _, three = model_check(ctx, wd, "HookLife exhaustive MaxCalls=1 MaxTicks=1 hooks<=3 pipe+http",
+                               consts(1, 1, max_hooks=3), None)
+        three = [h for h in three if len(h["hooks"]) == 3]
+
+    # background (TLC on other cores while the real code runs): the two-call space against the invariants, and the
+    # design as found (HTTP producer-turn failures end with error None; /init and exchange failures hand the hook the
+    # transport's wrapper exception), which violates the monitor and is kept as documentation
     pair_hooks = PAIR_Q if quick else PAIR_T
-    _, two = model_check(ctx, wd, f"HookLife exhaustive MaxCalls=2 MaxTicks={1 if quick else 2} "
-                                  f"{len(pair_hooks)} hook configurations, second call "
-                                  f"{'short scripts' if quick else 'any'}",
-                         consts(2, 1 if quick else 2, full_pairs=not quick), pair_hooks)
-    two = [h for h in two if len(h["script"]) == 2]
-    for hs in (one, ver1, two):
+    bg: dict = {}
+
+    def background():
+        try:
+            bg["pairs"] = model_check(ctx, wd, f"HookLife exhaustive MaxCalls=2 MaxTicks={1 if quick else 2} "
+                                               f"{len(pair_hooks)} hook configurations (invariants only)",
+                                      consts(2, 1 if quick else 2), pair_hooks, emit=False, mod="MC_Pairs", record=False)
+            wrap_module(wd, "HookLife", "MC_AsFound", {"PairHooksDef": "HookCfgs"}, extends="TLC")
+            bg["asfound"] = run_tlc(wd, "MC_AsFound", render_cfg(constants=consts(1, 1, ("http",), fix=False, max_hooks=1),
+                                                                 overrides={"PairHooks": "PairHooksDef"},
+                                                                 invariants=["DoneClean"]),
+                                    env={"JAVA_TOOL_OPTIONS": "-XX:TieredStopAtLevel=1"}, workers=2)
+        except BaseException as e:  # noqa: BLE001
+            bg["error"] = e
+
+    bth = threading.Thread(target=background, daemon=True)
+    bth.start()
+
+    for hs in (one, ver1, three):
         hs.sort(key=lambda h: json.dumps([h["tr"], h["hooks"], h["script"]], sort_keys=True))   # TLC's order varies
+    # two-call histories: the MaxCalls=2 script space is CallDescs x CallDescs; a seeded sample of it is composed here
+    # from the TLC-enumerated call descriptors (TLC checks the whole space above and re-runs the model on each below)
+    descs = sorted({json.dumps(h["script"][0], sort_keys=True) for h in one})
+    n_pairs = 300 if quick else 5000
+    two = []
+    for _ in range(n_pairs):
+        two.append({"tr": ctx.rng.choice(["pipe", "http"]), "hooks": ctx.rng.choice(pair_hooks),
+                    "script": [json.loads(ctx.rng.choice(descs)), json.loads(ctx.rng.choice(descs))],
+                    "hist": None, "strace": None})
     ctx.exhaustive = True
-    ctx.rule = ("case = one call history (script of 1-2 calls with client exit points, transport, hook configuration) "
-                "enumerated by TLC, replayed on a fresh real pipe connection / the in-process HTTP client with recording "
-                "hooks; non-trivial = distinct (world, transport, hooks, script) tuples executed; single-call histories "
-                "all, two-call histories a seeded sample")
+    ctx.rule = ("case = one call history (script of 1-2 calls with client exit points, transport, hook configuration), "
+                "replayed on a fresh real pipe connection / the in-process HTTP client with recording hooks; single-call "
+                "histories: all that TLC enumerates; two-call histories: a seeded sample of CallDescs x CallDescs (the "
+                "space TLC model-checks); non-trivial = distinct (world, transport, hooks, script) tuples executed")
     ctx.assume("HTTP legs use the in-process falcon test client (make_sync_client), one worker, no response cap",
                "socket-family transport = make_pipe_pair; the server trace is read after the serve loop ended (EOF)",
                "hooks are registered with vgi_rpc.rpc._common._register_dispatch_hook, as vgi_rpc.otel / sentry do",
-               f"two-call histories: seeded sample of the TLC-enumerated set ({300 if quick else 5000})")
-    ctx.rng.shuffle(two)
-    n_pairs = 300 if quick else 5000
+               f"two-call histories: seeded sample ({n_pairs}) over hook configurations {pair_hooks}")
     ctx.extra["model_phase_s"] = round(time.time() - t0, 1)
     t1 = time.time()
 
-    worlds = Worlds(methods)
-    base_cache: dict = {}
-    jobs = [(False, h) for h in one] + [(False, h) for h in two[:n_pairs]] + [(True, h) for h in ver1]
-    jobs.sort(key=lambda j: j[0])                      # one world at a time
-    traces, metas = [], []
+    jobs = [(False, h) for h in one + three + two] + [(True, h) for h in ver1]
     seed = ctx.rng.randrange(1, 50)
+    shards: dict = {}
     for ji, (ver, h) in enumerate(jobs):
         xs = [seed * 10 + 3 * k + 1 for k in range(len(h["script"]))]
-        bkey = json.dumps([ver, h["tr"], h["script"]], sort_keys=True)
-        if bkey not in base_cache:
-            base_cache[bkey] = replay(worlds, ver, h["tr"], [], h["script"], xs)
-        base = base_cache[bkey]
-        real = base if not h["hooks"] else replay(worlds, ver, h["tr"], list(h["hooks"]), h["script"], xs)
+        # a script's hooked variants and its hook-less baseline run in the same worker (baseline once per worker)
+        k = zlib.crc32(json.dumps([h["tr"], h["script"]], sort_keys=True).encode()) % nproc
+        shards.setdefault((ver, k), []).append((ji, h["tr"], h["hooks"], h["script"], xs))
+    try:
+        parts = pool.map_async(work, [(methods, ver, sh) for (ver, _), sh in sorted(shards.items())],
+                               chunksize=1).get(timeout=1500)
+    except mp.TimeoutError as e:
+        raise MachineryError("X01 workers did not finish") from e
+    results: dict = {}
+    for part in parts:
+        for ji, real, base in part:
+            results[ji] = (real, base)
+    traces, metas = [], []
+    for ji, (ver, h) in enumerate(jobs):
+        real, base = results[ji]
         ctx.case([ver, h["tr"], h["hooks"], h["script"]])
         traces.append({"tr": h["tr"], "hooks": h["hooks"], "script": h["script"], "events": real["hist"],
                        "strace": real["strace"], "obsd": real["obsd"], "based": base["obsd"]})
@@ -187,16 +260,42 @@ def run(ctx: Ctx) -> None:
         ctx.sample({"transport": h["tr"], "hooks": h["hooks"], "script": h["script"], "client_events": real["hist"],
                     "server_trace": [f"{e['ev']}:{e['h']}:{e['m']}:{e['tok']}:{e['err']}" for e in real["strace"]]})
 
+    # code -> spec: TLC validates every recorded execution (several TLC processes side by side, one workdir each)
     n_acc = 0
+    groups = []
     for ver in (False, True):
         idx = [i for i, m in enumerate(metas) if m[0] == ver]
-        if not idx:
-            continue
-        cs = consts(2, 3, ver=ver)
-        vs = tracecheck.validate(ctx, wd, "HookLifeTrace", [traces[i] for i in idx], constants=cs,
-                                 overrides={"PairHooks": "PairHooksAll"},
-                                 name=f"HookLifeTrace: (client events, server trace) of every replay, ver_mismatch={ver}",
-                                 chunk=4000)
+        nparts = max(1, min(4, len(idx) // 600))
+        groups += [(ver, idx[k::nparts]) for k in range(nparts) if idx[k::nparts]]
+    verdicts: dict = {}
+
+    def validate(gi: int, ver: bool, idx: list) -> None:
+        sub = wd / f"tv{gi}"
+        sub.mkdir()
+        for f in wd.glob("*.tla"):
+            shutil.copy(f, sub / f.name)
+        verdicts[gi] = tracecheck.validate(
+            ctx, sub, "HookLifeTrace", [traces[i] for i in idx], constants=consts(2, 3, ver=ver, max_hooks=3),
+            overrides={"PairHooks": "PairHooksAll"},
+            name=f"HookLifeTrace: (client events, server trace) of {len(idx)} replays, ver_mismatch={ver}", chunk=4000)
+
+    errs: list = []
+
+    def guarded(*a) -> None:
+        try:
+            validate(*a)
+        except BaseException as e:  # noqa: BLE001
+            errs.append(e)
+
+    ths = [threading.Thread(target=guarded, args=(gi, ver, idx), daemon=True) for gi, (ver, idx) in enumerate(groups)]
+    for t in ths:
+        t.start()
+    for t in ths:
+        t.join(1500)
+    if errs:
+        raise errs[0]
+    for gi, (ver, idx) in enumerate(groups):
+        vs = verdicts[gi]
         for i, v in zip(idx, vs):
             _, h, real, base = metas[i]
             det = {"script": h["script"], "hooks": h["hooks"], "transport": h["tr"], "version_mismatch_world": ver,
@@ -225,5 +324,12 @@ def run(ctx: Ctx) -> None:
     ctx.extra["histories_replayed"] = len(jobs)
     ctx.extra["histories_accepted_by_model"] = n_acc
     ctx.extra["hook_configurations"] = sorted({"+".join(h["hooks"]) or "none" for _, h in jobs})
-    for c in worlds.http.values():
-        c.close()
+    bth.join(1500)
+    if bth.is_alive() or "error" in bg:
+        raise MachineryError(f"X01 background model checking failed: {bg.get('error')}")
+    r2, name2 = bg["pairs"]
+    ctx.add_tlc(name2, r2)
+    require_ok(r2, f"HookLife intended design ({name2})")
+    ctx.extra["design_as_found_violates"] = bg["asfound"].violated
+    ctx.extra["design_as_found_counterexample_last_state"] = (bg["asfound"].counterexample[-1][1][:1500]
+                                                              if bg["asfound"].counterexample else None)
